@@ -17,7 +17,7 @@ LEVEL = 'model_checking'
 DESIGN_REF = 'DESIGN.md section 5 / C01'
 TECHNIQUE = ('exhaustive enumeration of model structures x elimination orders x all message schedules (linear extensions '
              'of the dependency order, installed in model.message_order) on the real belief_propagation; brute-force joint oracle')
-RULE = ('case = (graph, presentation, sizes, elimination order, schedule, value class); graphs: all labelled graphs on <=k '
+RULE = ('case = (graph, presentation, sizes, elimination order, schedule, value class), plus call histories (3 calls on one model object with the factor attribute orders none/all/odd/even reversed and new values per call); graphs: all labelled graphs on <=k '
         'attributes; orders: None, int, all permutations; schedules: every linear extension of the message dependency order of '
         'each distinct tree (generated independently of mp_order); non-trivial = model has >= 2 cliques; distinct = digest of '
         '(clique list, order, schedule, value class). states = distinct down-sets of the dependency order visited, '
@@ -128,7 +128,7 @@ def model_potentials(model, attrs, sizes, in_pots, permute=False):
         # same parameters, but each factor lists its attributes in reversed order (factors are addressed by name)
         out = {}
         for i, cl in enumerate(model.cliques):   # every second factor reversed: senders and receivers of messages disagree on the order
-            if i % 2 == 1:
+            if permute == 'all' or i % 2 == (0 if permute == 'even' else 1):
                 out[cl] = Factor(dom.project(tuple(reversed(cl))), np.ascontiguousarray(np.transpose(arrs[cl])))
             else:
                 out[cl] = Factor(dom.project(cl), arrs[cl])
@@ -268,6 +268,44 @@ def explore_structure(acc, k, mask, pres, sizes_name, vclasses, seed, only=None,
     return cliques
 
 
+HISTORIES = [['none', 'all', 'odd'], ['odd', 'even', 'none']]
+
+
+def explore_history(acc, k, mask, pres, seed, only=None):
+    """E3: several belief_propagation calls on ONE model object whose potentials name the clique attributes in a different order from
+    call to call (same parameters, same shapes where the attribute sizes coincide); every call must return the true marginals"""
+    from mbi import Domain, GraphicalModel
+    attrs = S.ATTRS[:k]
+    sizes = S.SIZES_MAIN[:k]
+    cliques = S.present(attrs, S.graph_by_mask(k, mask), pres)
+    dom = Domain(attrs, sizes)
+    rngseed = zlib.crc32(repr((seed, k, mask, pres, 'history')).encode())
+    orders = [None, list(reversed(attrs)), attrs[1::2] + attrs[0::2]]
+    for oi, order in enumerate(orders):
+        for hi, hist in enumerate(HISTORIES):
+            if only is not None and (only['order'] != order or only['hist'] != hist):
+                continue
+            total = TOTALS[(mask + hi) % 3]
+            model = GraphicalModel(dom, [tuple(c) for c in cliques], total=total, elimination_order=order)
+            case = {'mode': 'history', 'k': k, 'mask': mask, 'pres': pres, 'order': order, 'hist': hist, 'seed': seed}
+            acc.case({'c': cliques, 'o': order, 'h': hist}, nontrivial=len(model.cliques) >= 2)
+            acc.traces += 1
+            acc.states += len(hist) + 1
+            ok = True
+            for step, mode in enumerate(hist):
+                # new parameter values on every call: nothing of an earlier call may be reused
+                pots, _ = input_potentials(attrs, sizes, cliques, 'generic', rngseed + step)
+                joint = O.explicit_joint(attrs, sizes, pots, total)
+                mpots = model_potentials(model, attrs, sizes, pots, permute=(False if mode == 'none' else mode))
+                marg = model.belief_propagation(mpots)
+                acc.transitions += 2 * max(0, len(model.cliques) - 1)
+                ok = compare(acc, case, {'vclass': 'generic', 'sched': 'history'}, model, marg, joint, attrs, total,
+                             'belief_propagation call %d of %r on one model (factor orders: %s)' % (step + 1, hist, mode)) and ok
+                if not ok:
+                    break
+            acc.outcome('history:%s' % ('ok' if ok else 'FAIL'))
+
+
 def run_job(job):
     acc = Acc()
     k = job['k']
@@ -282,6 +320,7 @@ def run_job(job):
                 cl = explore_structure(acc, k, mask, pres, sizes_name, job['vclasses'], job['seed'], orders_mode=job.get('orders', 'all'))
                 if sizes_name == 'main' and pres in ('edges', 'maximal') and k <= 4:
                     explore_structure(acc, k, mask, pres, sizes_name, ['generic', 'neginf-cell'], job['seed'], orders_mode='some', naming='scrambled')
+                    explore_history(acc, k, mask, pres, job['seed'])
         acc.sample({'k': k, 'edges': S.graph_by_mask(k, mask), 'presentation': 'nested', 'cliques': S.present(S.ATTRS[:k], S.graph_by_mask(k, mask), 'nested'),
                     'orders': 'None, 2, all permutations', 'value_classes': job['vclasses']})
     return acc
@@ -289,7 +328,10 @@ def run_job(job):
 
 def replay(case):
     acc = Acc()
-    explore_structure(acc, case['k'], case['mask'], case['pres'], case['sizes'], [case['vclass']], case['seed'], only=case, naming=case.get('naming', 'letters'))
+    if case.get('mode') == 'history':
+        explore_history(acc, case['k'], case['mask'], case['pres'], case['seed'], only=case)
+    else:
+        explore_structure(acc, case['k'], case['mask'], case['pres'], case['sizes'], [case['vclass']], case['seed'], only=case, naming=case.get('naming', 'letters'))
     for v in acc.violations:
         print(v['msg'])
     return acc.violations
